@@ -92,7 +92,7 @@ class Check:
             d = today + datetime.timedelta(days=off)
             a, b = DT(d.year, d.month, d.day, 0, 0, 0), DT(d.year, d.month, d.day, 23, 59, 59)
         else:
-            d = rng.choice([[2017, 5, 1], [2020, 2, 29], [2021, 12, 31], [2022, 1, 1], [2019, 3, 31], [2023, 10, 29], [2016, 2, 28], [2024, 6, 30], [1999, 12, 31], [2038, 1, 19]])
+            d = rng.choice([[1969, 12, 31], [1965, 7, 4], [2017, 5, 1], [2020, 2, 29], [2021, 12, 31], [2022, 1, 1], [2019, 3, 31], [2023, 10, 29], [2016, 2, 28], [2024, 6, 30], [1999, 12, 31], [2038, 1, 19]])
             prec = rng.choice(["day", "hour", "minute", "second"])
             lit = {"date": d, "sep": rng.choice(["-", "-", ":"]), "quoted": True}
             if prec != "day":
@@ -102,7 +102,8 @@ class Check:
                     if prec != "minute":
                         lit["s"] = rng.choice([0, 5, 59])
             else:
-                lit["quoted"] = rng.random() < 0.5
+                # a bare date is recognised by the lexer for years 1970..2999 only (a documented heuristic): quote the others
+                lit["quoted"] = True if d[0] < 1970 else rng.random() < 0.5
             a, b = lit_interval(lit)
         # files on the edge grid
         top = rng.choice(gen.SAFE_ROOTS)
@@ -115,14 +116,14 @@ class Check:
                 a + datetime.timedelta(hours=12), DT(a.year, a.month, 28, 12, 0, 0) + datetime.timedelta(days=4)]
         stamps = []
         for p in pts:
-            if p.year >= 1971:
+            if p.year >= 1902:
                 stamps.append(int(p.replace(tzinfo=z).timestamp()))
         # instants around the zone's DST switches of the literal's year (skipped and repeated local hours)
         if a.year >= 1971:
             for tr in dst_transitions(z, a.year)[:2]:
                 stamps += [tr - 1, tr, tr + 1800, tr - 1800]
         for i, ts in enumerate(stamps):
-            nodes.append({"path": top + ("/sub" if i % 3 == 0 else "") + "/f%02d" % i, "type": "file", "content": "x", "mtime": ts * 10 ** 9 + rng.choice([0, 0, 999999999])})
+            nodes.append({"path": top + ("/sub" if i % 3 == 0 else "") + "/f%02d" % i, "type": "file", "content": "x", "mtime": ts * 10 ** 9 + rng.choice([0, 0, 999999999, 500000000, 1])})
         world = {"nodes": nodes}
         for n in world["nodes"]:
             if n["type"] == "dir":
